@@ -24,7 +24,7 @@ type c08 struct {
 		Fired                                                                    [simrt.NumFaultKinds]int
 		Toctou, DepthGE2                                                         int
 		Cycles, JsightInInclude                                                  int
-		Names, NamesRejected, NamesAccepted, StatsOutside, OpensInside          int
+		Names, NamesRejected, NamesAccepted, StatsOutside, OpensInside           int
 		Distinct                                                                 map[uint64]bool
 		Samples                                                                  []any
 	}
@@ -36,10 +36,10 @@ func init() {
 	runners["C08"] = func(tier string) runner {
 		c := &c08{tier: tier}
 		L := 5
-		c.nCut, c.nFS, c.nCyc = 600, 400, 60
+		c.nCut, c.nFS, c.nCyc = 4000, 3000, 200
 		if tier == "thorough" {
 			L = 7
-			c.nCut, c.nFS, c.nCyc = 20000, 12000, 600
+			c.nCut, c.nFS, c.nCyc = 150000, 100000, 2000
 		}
 		// all names over the alphabet up to length L
 		var rec func(prefix string, left int)
